@@ -121,8 +121,18 @@ func HarnessC03Forest() {
 			// the partial forest completes the proof itself; wrong-tree carve-out cannot be read off
 			// Verify's indexes, so it is evaluated on the geometry alone: a claim is in the carve-out
 			// when its hash is the true hash of a root of ANOTHER tree than the one its position lies in
+			// a map forest allocated for more rows also answers to positions in the allocated numbering
+			var alt *refView
+			if w.part.TotalRows > v.rows {
+				alt = w.rm.viewRows(w.part.TotalRows)
+			}
 			for i := range tg {
 				ex, h := v.hashAtSym(tg[i])
+				if alt != nil {
+					ex2, h2 := alt.hashAtSym(tg[i])
+					h = verifIteHash(ex, h, h2)
+					ex = verifIteBool(ex, true, ex2)
+				}
 				otherRoot := false
 				for ti := range v.roots {
 					otherRoot = verifIteBool(verifIteBool(v.inSpanSym(ti, tg[i]), false, hs[i] == v.roots[ti]), true, otherRoot)
